@@ -748,3 +748,34 @@ def const_value(node, default=None):
             isinstance(node.operand, ast.Constant):
         return -node.operand.value
     return default
+
+
+def callee_is(prog, func, call, *names):
+    """Is the callee of ``call`` (a Call node inside ``func``) one of
+    ``names``?  The callee is resolved through the module's imports and
+    aliases to its canonical dotted name (``pd.concat`` / ``pandas.concat``
+    / ``from pandas import concat`` are all ``pandas.concat``); a name
+    matches when it equals the canonical name or is a dotted suffix of it.
+    Local variables that shadow the name do not match."""
+    fn = call.func
+    try:
+        dn = prog.dotted(func, func.module, fn)
+    except Exception:  # noqa: BLE001
+        dn = None
+    if dn is None:
+        if isinstance(fn, ast.Name):
+            dn = fn.id
+        elif isinstance(fn, ast.Attribute):
+            try:
+                dn = ast.unparse(fn)
+            except Exception:  # noqa: BLE001
+                return False
+        else:
+            return False
+    for nm in names:
+        short = nm[len("builtins."):] if nm.startswith("builtins.") else nm
+        for cand in (nm, short):
+            if dn == cand or dn.endswith("." + cand) or \
+                    dn == "builtins." + cand:
+                return True
+    return False
